@@ -15,6 +15,7 @@ Fault enumeration: for every object position of every generated model, plant
   orphan-child        a contained object whose EClass is in no EPackage
   orphan-ref          a referenced object whose EClass is in no EPackage
   orphan-root         (positions = roots) a root whose EClass is in no EPackage
+  lone-surrogate      a string attribute holding a lone surrogate (a str that UTF-8 cannot encode)
   ns-no-uri / ns-empty-prefix / ns-bad-prefix   (once per model) the EPackage of the model has no nsURI, an empty
                       nsPrefix, an nsPrefix that is not an XML name: fails in the NAMESPACE step, after the traversal
 and for every annotation of every generated metamodel-as-model
@@ -31,7 +32,11 @@ from harness import common
 PID = 'C16'
 FMT_CODE = {'xmi': 0, 'json': 1}
 INSTANCE_FAULTS = ['tostring-raises', 'tostring-nonstring', 'orphan-child', 'orphan-ref', 'orphan-root',
-                   'ns-no-uri', 'ns-empty-prefix', 'ns-bad-prefix']
+                   'lone-surrogate', 'ns-no-uri', 'ns-empty-prefix', 'ns-bad-prefix']
+# kinds whose effect depends on the model or on the serialiser's settings: the outcome (raised or saved) is taken
+# as observed and the phase below applies when it raised; what is compared is the CONTENT of the target
+OBSERVED_OUTCOME = {'ns-no-uri': 'ns', 'ns-empty-prefix': 'ns', 'ns-bad-prefix': 'ns', 'lone-surrogate': 'bytes'}
+SURROGATE = 'caf\udce9.txt'       # what os.fsdecode gives for a non-UTF-8 file name: a str UTF-8 cannot encode
 NS_FAULTS = {'ns-no-uri', 'ns-empty-prefix', 'ns-bad-prefix'}    # model-wide: planted once (position 0)
 ECORE_FAULTS = ['annotation-detail-int', 'annotation-detail-object']
 # What the implementation is expected to do with a planted fault: phase in which the
@@ -48,6 +53,9 @@ PHASE = {
     ('xmi', 'ns-no-uri'): 'ns', ('json', 'ns-no-uri'): None,
     ('xmi', 'ns-empty-prefix'): 'ns', ('json', 'ns-empty-prefix'): None,
     ('xmi', 'ns-bad-prefix'): 'ns', ('json', 'ns-bad-prefix'): None,
+    # a string with a lone surrogate: lxml refuses it when the attribute is set (construction); json.dumps escapes
+    # it (ensure_ascii) and the save succeeds - were it written unescaped, .encode('utf-8') would raise
+    ('xmi', 'lone-surrogate'): 'build', ('json', 'lone-surrogate'): None,
     ('xmi', 'annotation-detail-int'): 'build', ('json', 'annotation-detail-int'): None,
     ('xmi', 'annotation-detail-object'): 'build', ('json', 'annotation-detail-object'): None,
 }
@@ -294,6 +302,10 @@ def plant(b, spec, kind, pos):
         setattr(pk, attr, bad)
         return lambda: setattr(pk, attr, previous)
     x = b.universe[pos]
+    if kind == 'lone-surrogate':
+        previous = x.name
+        x.name = SURROGATE
+        return lambda: setattr(x, 'name', previous)
     if kind == 'tostring-raises':
         x.bad = Opaque()
         return lambda: setattr(x, 'bad', None)
@@ -506,10 +518,10 @@ def _content_tokens(c):
 
 
 def _tokens(fmt, fault, npos, old, new, own=True):
-    """fmt ; fault ; nbuild ; nenc ; nns ; own ; has_old ; |old| ; old.. ; |new| ; new..
+    """fmt ; fault ; nbuild ; nenc ; nns ; nbytes ; own ; has_old ; |old| ; old.. ; |new| ; new..
     XMI: lxml serialises an accepted tree without raising (premise j_nenc = 0 of C16_failsafe); one
     position for the namespace step"""
-    return ([FMT_CODE[fmt], fault, npos, npos if fmt == 'json' else 0, 1, 1 if own else 0,
+    return ([FMT_CODE[fmt], fault, npos, npos if fmt == 'json' else 0, 1, npos if fmt == 'json' else 0, 1 if own else 0,
              0 if old is None else 1, len(old or b'')] + list(old or b'')
             + [len(new or b'')] + list(new or b''))
 
@@ -521,7 +533,9 @@ def _fault_number(fmt, phase, pos, npos):
         return pos
     if phase == 'encode':
         return npos + pos
-    return npos + (npos if fmt == 'json' else 0)       # 'ns': the single namespace position
+    if phase == 'ns':
+        return npos + (npos if fmt == 'json' else 0)   # the single namespace position
+    return npos + (npos if fmt == 'json' else 0) + 1 + pos     # 'bytes'
 
 
 def _h(x):
@@ -569,10 +583,11 @@ def check_fault(out, model, spec, fmt, opts, kind, pos, old, stats, scratch):
             new = read(other)
             stats['saves'] += 1
         # correspondence with the order-of-effects model
-        if kind in NS_FAULTS:
+        if kind in OBSERVED_OUTCOME and (kind in NS_FAULTS or phase is None):
             # whether the namespace map is refused depends on the model (several roots: no prefix is registered
-            # unless an xsi:type needs one): the outcome is taken as observed, the CONTENT is what is compared
-            phase = 'ns' if exc else None
+            # unless an xsi:type needs one), whether a lone surrogate reaches .encode depends on the encoder's
+            # settings: the outcome is taken as observed, the CONTENT is what is compared
+            phase = OBSERVED_OUTCOME[kind] if exc else None
         fault = _fault_number(fmt, phase, pos, npos)
         want = model.ask('savefs', _tokens(fmt, fault, npos, old, new, opts['target'] == 'uri'))
         got = [1 if exc else 0] + _content_tokens(after)
